@@ -156,7 +156,7 @@ func (*hbits) Run(rc *core.RunCtx) *core.RunResult {
 	}
 	args = append(args, "-o", "bits_format="+bf, "-r", prog, "sample")
 	o.ArgsV = args
-	run := runFQ(t, o, fqOpts{Policy: -1, Knobs: knobs})
+	run := runFQ(t, o, fqOpts{Policy: -1, Knobs: knobs, Fine: t.Intn(4) == 0})
 	run.account(res, o)
 	res.Fingerprint = fnv64(run.Stats.Fingerprint, []byte(s.Rel+s.Format+bf))
 	res.Sample = map[string]any{"sample": s.Rel, "format": s.Format, "bits_format": bf, "mode": mode, "knobs": fmt.Sprint(knobs), "policy": run.Stats.Policy, "exit": run.Res.Exit, "disk_calls": o.Disk.Calls}
